@@ -509,8 +509,44 @@ func (s *stubHandler) maybePanic(m string) {
 	s.w.cur.stubCalls = append(s.w.cur.stubCalls, fmt.Sprintf("%d.%s", s.idx, m))
 	if s.panicIn == m {
 		s.w.cur.faults = append(s.w.cur.faults, faultObs{seq: s.w.next(), site: "stub", fault: "panic:" + m, phase: s.w.phase})
-		panic("scripted panic in stub handler " + m)
+		panic(panicValue("scripted panic in stub handler "+m, s.idx))
 	}
+}
+
+// panicValue: what a scripted panic carries. Real panics come with values of many dynamic types (strings, errors,
+// runtime errors, values of a package's own types); which one is a function of the site, so that the placements of one
+// scenario - executed one after the other in one process - meet different types in a row.
+type panicPayload struct {
+	Site string
+	N    int
+}
+
+func panicValue(site string, n int) any {
+	h := n
+	for _, c := range site {
+		h = h*31 + int(c)
+	}
+	if h < 0 {
+		h = -h
+	}
+	switch h % 5 {
+	case 0:
+		return site
+	case 1:
+		return fmt.Errorf("%s (error value)", site)
+	case 2:
+		return panicPayload{Site: site, N: n}
+	case 3:
+		return &panicPayload{Site: site, N: n}
+	}
+	// a genuine runtime error
+	var m map[string]int
+	defer func() {}()
+	return func() (v any) {
+		defer func() { v = recover() }()
+		m[site] = n
+		return nil
+	}()
 }
 
 func (s *stubHandler) Name() string {
@@ -524,7 +560,7 @@ func (s *stubHandler) Authenticate(*csr.ReqParam) error {
 		return nil
 	case "panic":
 		s.w.cur.faults = append(s.w.cur.faults, faultObs{seq: s.w.next(), site: "stub", fault: "panic:Authenticate", phase: "auth"})
-		panic("scripted panic in stub Authenticate")
+		panic(panicValue("scripted panic in stub Authenticate", s.idx))
 	case "fail_disabled":
 		// every kind of error value is a refusal
 		return gensign.NewError(gensign.HandlerDisabled, fmt.Sprintf("stub%d", s.idx), errors.New("stub: handler disabled"))
@@ -609,7 +645,7 @@ func (c *scriptedCA) Sign(ctx context.Context, req *proto.SSHCertificateSigningR
 		}
 		c.w.cur.faults = append(c.w.cur.faults, faultObs{seq: c.w.next(), site: "signer", fault: kind, phase: "sign", index: idx})
 		if pan {
-			panic("scripted panic in signer")
+			panic(panicValue("scripted panic in signer", c.calls))
 		}
 		return nil, nil, errors.New("scripted CA failure")
 	}
